@@ -34,3 +34,15 @@ Theorem C04_tail_copied :
   forall pf md lower ro specs st l, ph st = PTail -> run pf md lower ro specs st l = Ok (add_text st l).
 Proof. exact run_tail. Qed.
 Print Assumptions C04_tail_copied.
+
+(* What the user sees: Parse on the whole argument vector returns what Parse on the part before the
+   `--` returns - same warnings, same error if any, same option store and selected command - with the
+   tokens behind the `--` appended verbatim and in order to remaining. *)
+Theorem C04_parse_result :
+  forall pf md lower specs ro root st0 pre tail st sh,
+    run pf md lower ro specs (init root st0) pre = Ok st ->
+    at_head pf md lower specs st DD sh ->
+    parse pf md lower ro specs root st0 (pre ++ DD :: tail) =
+      extend tail (parse pf md lower ro specs root st0 pre) (add_text (set_ph sh PTail) tail).
+Proof. exact terminator_parse. Qed.
+Print Assumptions C04_parse_result.
